@@ -19,7 +19,9 @@ UNIVERSE = (A, B, C, D)
 
 DATA = {
     "distinct": (((2, 1, 0), (0, 2, 1), (1, 0, 2), (2, 0, 1), (0, 1, 2)), ((1, 1, 1), (2, 1, 0), (0, 0, 0))),
-    "dups": (((1, 1, 0), (0, 1, 1), (1, 1, 0), (0, 0, 1), (0, 1, 1), (1, 0, 0)), ((1, 1, 0), (0, 0, 1), (1, 1, 0))),
+    # (in the order of the state's sort the first three rows of L0 are (1,0,0), (1,1,0), (1,1,0): a window computed per
+    # chain operand before the duplicates are removed loses (0,0,1), which L1 does not supply)
+    "dups": (((1, 1, 0), (0, 1, 1), (1, 1, 0), (0, 0, 1), (0, 1, 1), (1, 0, 0)), ((1, 1, 0), (0, 1, 1), (1, 1, 0))),
 }
 
 R = lambda t: ("ref", t)  # noqa: E731
